@@ -414,6 +414,12 @@ def gridfloat_compare(case, cells, res):
     nd = len(case["spec"]["dims"])
     fails = []
     for k, row in enumerate(case["measures"]):
+        if "expect" in case:
+            # boundary clause decided per instance by kernel computation on the bit-exact model: reported boundary j -> cell j
+            i, j = case["expect"][k]
+            if res[k * nd + i][0] != j:
+                fails.append(fail("grid-boundary-below-model", "dimension %d: the bit-exact model maps the reported boundary[%d] = %r to cell %d, not %d "
+                                  "(configuration classified as moderate)" % (i, j, row[i], res[k * nd + i][0], j), k=k, dims=[i], model=res[k * nd + i][0]))
         for i in range(nd):
             new, old = res[k * nd + i]
             c = cells[k][i]
@@ -433,6 +439,11 @@ def run_gridfloat(case, driver=None):
 
 
 def reduce_gridfloat(case):
+    if "expect" in case:
+        if len(case["measures"]) > 1:
+            for k in range(len(case["measures"])):
+                yield {**case, "measures": [case["measures"][k]], "expect": [case["expect"][k]]}
+        return
     for c in reduce_grid(case):
         if c["measures"] != case["measures"] or len(c["spec"]["dims"]) != len(case["spec"]["dims"]):
             yield c
@@ -1151,15 +1162,19 @@ def gen_sliding_case(rng, tier):
             "buffer": rng.choice([remap, 2 * remap, 1000, 4]), "mdtype": rng.choice(["d", "d", "list", "f"])}
     n = rng.choice([0, remap - 1, remap, remap + 1, 2 * remap, 3 * remap + 1, rng.randint(0, 4 * remap)])
     pools = [[rng.uniform(lo, hi) for _ in range(rng.randint(1, 4))] for lo, hi in ranges]
-    top = rng.random() < 0.3   # measures crowding within a few epsilon below the largest one: boundaries inside [upper - eps, upper]
+    top = rng.random() < 0.35   # measures crowding within epsilon below the largest one: boundaries inside [upper - eps, upper]
     tops = [rng.uniform(lo, hi) for lo, hi in ranges]
+    if top:
+        n = remap * rng.randint(1, 3) + rng.choice([0, 0, 1])
+        if spec["eps"] == 0.0:
+            spec["eps"] = 1e-6
     adds = []
     for _ in range(n):
         m = []
         for (lo, hi), pool, t in zip(ranges, pools, tops):
             r = rng.random()
-            if top and r < 0.7:
-                v = t - rng.randint(0, 8) * (spec["eps"] or 1e-9) / 4
+            if top and r < 0.85:
+                v = t - rng.randint(0, 5) * spec["eps"] / 4
             elif r < 0.45:
                 v = rng.uniform(lo, hi)
             elif r < 0.8:
@@ -1204,9 +1219,14 @@ def gen_prox_case(rng, tier):
             "mdtype": rng.choice(["d", "d", "list", "f"])}
     centres = [[rng.uniform(-2, 2) for _ in range(nd)] for _ in range(3)]
     adds = []
-    for _ in range(rng.choice([0, 1, 1, 2, 3])):
+    dense = rng.random() < 0.3    # many spread-out entries (several k-D tree leaves) and mostly in-region queries
+    if dense:
+        spec["thr"] = 0.0
+        for _ in range(2):
+            adds.append([[u.cast(rng.uniform(-3, 3), dtype) for _ in range(nd)] for _ in range(rng.randint(40, 110))])
+    for _ in range(0 if dense else rng.choice([0, 1, 1, 2, 3])):
         batch = []
-        for _ in range(rng.randint(1, 20 if tier == "quick" else 60)):
+        for _ in range(rng.randint(1, 45 if tier == "quick" else 120)):
             r = rng.random()
             if r < 0.4:
                 m = [rng.uniform(-3, 3) for _ in range(nd)]
@@ -1221,11 +1241,11 @@ def gen_prox_case(rng, tier):
     flat = [m for b in adds for m in b] or [[0.0] * nd]
     vdt = "f" if spec["mdtype"] == "f" else "d"
     qs = []
-    for _ in range(rng.randint(5, 20)):
+    for _ in range(rng.randint(20, 30) if dense else rng.randint(5, 20)):
         r = rng.random()
-        if r < 0.35:
-            q = [rng.uniform(-3, 3) for _ in range(nd)]
-        elif r < 0.5:
+        if r < (0.8 if dense else 0.35):
+            q = [rng.uniform(-3.5, 3.5) for _ in range(nd)]
+        elif r < (0.82 if dense else 0.5):
             q = list(rng.choice(flat))
         elif r < 0.7:
             a, b = rng.choice(flat), rng.choice(flat)
@@ -1351,7 +1371,28 @@ def check(rep, tier, seed, driver):
                 float_inputs.extend(mc_)
             except Exception as e:  # noqa
                 ctx.handle(fc, [fail("grid-raises", "index_of raised %r on finite measures" % (e,))])
+            # reported boundaries of moderate float64 configurations: the model itself must put boundary j into cell j
+            if spec["dtype"] == "d":
+                dims_, lo_, hi_, eps_ = u.grid_params(a)
+                rows, expect = [], []
+                for i in range(len(dims_)):
+                    if moderate(dims_[i], lo_[i], hi_[i], eps_, "d"):
+                        b = [float(x) for x in a.boundaries[i]]
+                        for j in sorted(set([0, dims_[i] - 1] + [rng.randrange(dims_[i]) for _ in range(4)])):
+                            r = list(base)
+                            r[i] = b[j]
+                            rows.append(r)
+                            expect.append([i, j])
+                if rows:
+                    fb = {"stream": "gridfloat", "spec": {**spec, "mdtype": "d"}, "measures": rows, "expect": expect}
+                    try:
+                        cells, mc_ = gridfloat_collect(fb)
+                        float_cases.append((fb, cells, len(float_inputs), len(mc_)))
+                        float_inputs.extend(mc_)
+                    except Exception as e:  # noqa
+                        ctx.handle(fb, [fail("grid-raises", "index_of raised %r on finite measures" % (e,))])
 
+    rep.count("gridfloat_reported_boundaries_decided_by_model", sum(len(fc.get("expect", ())) for fc, _, _, _ in float_cases))
     # ---- bit-exact evaluation inside Coq
     if u.gridfloat_available():
         res = u.gridfloat_eval(float_inputs, jobs=8)
@@ -1391,7 +1432,7 @@ def check(rep, tier, seed, driver):
         rep.count("sliding_queries", len(case["queries"]))
 
     # ---- proximity
-    for pi in range(60 if quick else 700):
+    for pi in range(120 if quick else 900):
         case = gen_prox_case(rng, tier)
         fails, info = do(case)
         rep.case(case, info.get("stored", 0) >= 2 and info.get("ties", 0) > 0)
